@@ -694,6 +694,32 @@ def stream_cache(tier, seed):
             else:
                 ops.append("f")
         emit(cap, ops)
+    # typed lookups: encoded transactions (valid, with trailing bytes, truncated, mutated) stored and read
+    # back through get_value::<Transaction>, across evictions and wrap-arounds
+    for _ in range(120 if tier == "quick" else 2000):
+        txs = []
+        for _k in range(rng.randrange(2, 7)):
+            tx = btc.rand_tx(rng, nin=rng.choice([0, 1, 1, 2]), nout=rng.choice([0, 1, 2]), segwit=rng.choice([True, False, None]))
+            tb, tf = btc.tx_bytes(tx)
+            r = rng.random()
+            if r < 0.15:
+                tb = tb + btc.rand_bytes(rng, rng.choice([1, 3]))
+            elif r < 0.3:
+                tb = tb[:rng.randrange(1, len(tb))]
+            elif r < 0.4:
+                ms = mutate(rng, tb, tf, 1)
+                if ms:
+                    tb = ms[0][1]
+            txs.append(tb)
+        tot = sum(len(t) for t in txs)
+        cap = rng.choice([tot, max(len(t) for t in txs), tot // 2 + 1, tot + 7, max(len(t) for t in txs) * 2])
+        ops = []
+        for k, tb in enumerate(txs):
+            ops += ["i:%d:%s" % (k, hx(tb)), "v:%d" % k]
+            if k:
+                ops.append("v:%d" % rng.randrange(0, k))
+        ops += ["v:%d" % k for k in range(len(txs))] + ["v:99", "l", "f"]
+        emit(cap, ops)
     # numbers mined from the current source as capacity, value size, number of entries and key
     for v in mined_values(limit=(300 if tier == "quick" else 5000)):
         if v < 1:
